@@ -12,15 +12,8 @@ for pid in ALL:
     if not os.path.exists(p):
         NA.setdefault(pid, NOT_BUILT)
         continue
-    src = open(p).read()
-    ns = {}
-    # property modules only need their metadata here: read constants without importing the heavy parts
-    import ast
-    tree = ast.parse(src)
-    meta = {}
-    for n in tree.body:
-        if isinstance(n, ast.Assign) and isinstance(n.targets[0], ast.Name) and n.targets[0].id in ("LEVEL", "LEVEL_TEXT", "LEVEL_NOTE", "TECHNIQUE", "DESIGN_REF", "NOT_APPLICABLE"):
-            meta[n.targets[0].id] = ast.literal_eval(n.value)
+    mod = importlib.import_module(f"props.{pid}")
+    meta = {k: getattr(mod, k) for k in ("LEVEL", "LEVEL_TEXT", "LEVEL_NOTE", "TECHNIQUE", "DESIGN_REF", "NOT_APPLICABLE") if hasattr(mod, k)}
     if "NOT_APPLICABLE" in meta:
         NA[pid] = meta["NOT_APPLICABLE"]
         continue
